@@ -38,14 +38,14 @@ pub fn classify(clause: &str, detail: &str, _trace: &[String]) -> Option<&'stati
         "C07/no-switch" => {
             if detail.contains("[penalty below swap threshold]") {
                 Some("C07/no-switch/penalty-below-swap-threshold")
-            } else if detail.contains("[report arrived during an outstanding lookup]") {
+            } else if detail.contains("[lookup outstanding since before the report: the worker cannot act yet]") {
                 Some("C07/report-during-outstanding-lookup")
             } else {
                 None
             }
         }
         "C07/fresh-penalised-path-used" => {
-            if detail.contains("[report arrived during an outstanding lookup]") {
+            if detail.contains("[lookup outstanding since before the report: the worker cannot act yet]") {
                 Some("C07/report-during-outstanding-lookup")
             } else {
                 None
